@@ -2,6 +2,7 @@ package rules
 
 import (
 	"go/ast"
+	"go/constant"
 	"go/token"
 	"go/types"
 
@@ -15,7 +16,7 @@ const seedP = "gossip/basestream/basestreamseeder."
 
 func init() {
 	register("C17", "other", "T4 GuardedBy (prune only on create), T7 Pairing (tables consistent, write-back before send), T2 Dominates (pending-memory wait before add), T8 (limit tests of the item callbacks)",
-		"Decides the bookkeeping the per-session stream contract depends on: an existing session is never evicted by a request that resumes a session — deleting another session / shortening the peer's session list happens only on the edge where the requested session was not found, and a changed list is stored back; the peer list and the session table stay consistent (an id appended to the list has its state stored under its key before the handler finishes; unregistering deletes every listed session and the list); the chunk loop runs only while the session is not done, updates next/done and writes the state back before the response is queued, and marks the response done with the same flag; the item callbacks stop before the stop key and when the requested count or size is reached; pending response memory is added only after waiting below the limit and the queued closure subtracts the same amount on every path. Contents and order of the payload produced by the application callback are not decided.",
+		"Decides the bookkeeping the per-session stream contract depends on, over the request handler of the reader goroutine seen through its calls (the select case and the same-package helpers it is split into; guards, earlier and later statements may live one or more calls up): an existing session is never evicted by a request that resumes a session — deleting another session / shortening the peer's session list happens only on the edge where the requested session was not found, and a changed list is stored back; the peer list and the session table stay consistent (an id appended to the list has its state stored under its key before the handler finishes; unregistering deletes every listed session and the list); the chunk loop runs only while the session is not done, updates next/done and writes the state back before the response is queued, and marks the response done with the same flag; the item callbacks stop before the stop key and when the requested count or size is reached; pending response memory is added only after waiting below the limit and the queued closure subtracts the same amount on every path. Contents and order of the payload produced by the application callback are not decided.",
 		[]string{"ForEachItem / SendChunk callbacks are opaque", "the seeder state is confined to the reader goroutine"},
 		runC17)
 }
@@ -66,132 +67,210 @@ func caseEnd(f *core.FuncInfo, body *cfg.Block) func(*cfg.Block) bool {
 // withinCase restricts analysis to nodes located inside the clause.
 func inClause(cc *ast.CommClause, pos token.Pos) bool { return cc.Pos() <= pos && pos < cc.End() }
 
+// c17RequestScope is the request handler of the reader goroutine seen through its calls: the select
+// case on notifyReceivedRequest and the helpers it is split into.
+func c17RequestScope(c *core.Ctx) *c17Scope {
+	f := c.Fn(seedT + ".readerLoop")
+	body, cc := selectCase(f, seedT+".notifyReceivedRequest")
+	c.Need(body != nil, "readerLoop has a select case on notifyReceivedRequest")
+	root := c17Region{F: f, From: blockEntry(body), End: caseEnd(f, body), In: func(p token.Pos) bool { return inClause(cc, p) }}
+	return c17ScopeFrom(root, 3)
+}
+
+// c17BoolFact reads a fact as "<expr> is true/false": b, !b, b == true, b != false, …
+func c17BoolFact(info *types.Info, ft core.Fact) (ast.Expr, bool, bool) {
+	cm, ok := core.NormCmp(ft)
+	if !ok {
+		return nil, false, false
+	}
+	if cm.R == nil {
+		return cm.L, cm.Op == token.EQL, true
+	}
+	if cm.Op != token.EQL && cm.Op != token.NEQ {
+		return nil, false, false
+	}
+	if v, isConst := core.ConstVal(info, cm.R); isConst && v.Kind() == constant.Bool {
+		return cm.L, constant.BoolVal(v) == (cm.Op == token.EQL), true
+	}
+	return nil, false, false
+}
+
+// c17LitArg returns the function literal passed as argument i of the call, directly or through a local
+// variable defined once as the literal (nil otherwise).
+func c17LitArg(f *core.FuncInfo, call *ast.CallExpr, i int) *core.FuncInfo {
+	if i >= len(call.Args) {
+		return nil
+	}
+	lit, ok := c17Through(f)(call.Args[i]).(*ast.FuncLit)
+	if !ok {
+		return nil
+	}
+	return f.P.LitInfo(lit)
+}
+
+// c17IndexOfField: e is m[k] for the map/slice field.
+func c17IndexOfField(f *core.FuncInfo, e ast.Expr, field string) bool {
+	ix, ok := ast.Unparen(e).(*ast.IndexExpr)
+	return ok && e != nil && fieldNameOf(f, ix.X) == field
+}
+
+// between: every path inside the frame's region from `from` (exclusive) to `to` passes one of via.
+func (fr *c17Frame) between(from core.Point, via []core.Point, to core.Point) (bool, []core.Point) {
+	path, found := core.PathQuery{F: fr.F, From: from, FromAfter: true, Target: core.PointSet(to), Avoid: core.PointSet(via...),
+		AvoidEdge: func(b *cfg.Block, i int) bool { return fr.End != nil && fr.End(b.Succs[i]) }}.Find()
+	return !found, path
+}
+
 func runC17(c *core.Ctx) {
 	sessionsF, peerSessF := seedT+".sessions", seedT+".peerSessions"
+	doneF, nextF := seedP+"sessionState.done", seedP+"sessionState.next"
+	const enqueueN = "utils/workers.Workers.Enqueue"
+
+	// stores of a session state into the table
+	tableStores := func(fr *c17Frame) []core.Point {
+		var out []core.Point
+		for _, a := range fr.Assignments() {
+			if c17IndexOfField(fr.F, a.LHS, sessionsF) {
+				out = append(out, a.Pt)
+			}
+		}
+		return out
+	}
+	sends := func(fr *c17Frame) []core.Point {
+		var out []core.Point
+		for _, cs := range fr.Calls() {
+			if cs.Name == enqueueN && !cs.InGo && !cs.InDefer {
+				out = append(out, cs.Pt)
+			}
+		}
+		return out
+	}
 
 	c.Clause("C17.prune", func() {
-		f := c.Fn(seedT + ".readerLoop")
-		body, cc := selectCase(f, seedT+".notifyReceivedRequest")
-		c.Need(body != nil, "readerLoop has a select case on notifyReceivedRequest")
+		sc := c17RequestScope(c)
 		// lookup of the requested session: session, ok := s.sessions[key]
-		var okVar, sessVar *types.Var
+		var lf *c17Frame
+		var okVar *types.Var
 		var lookupPt core.Point
-		for _, a := range assignments(f) {
-			as, isAs := a.Stmt.(*ast.AssignStmt)
-			if !isAs || !inClause(cc, as.Pos()) || len(as.Lhs) != 2 || len(as.Rhs) != 1 {
-				continue
-			}
-			if ix, ok := ast.Unparen(as.Rhs[0]).(*ast.IndexExpr); ok && fieldNameOf(f, ix.X) == sessionsF {
-				sessVar, okVar = varOf(f, as.Lhs[0]), varOf(f, as.Lhs[1])
-				lookupPt = a.Pt
-			}
-		}
-		c.Need(okVar != nil && sessVar != nil, "comma-ok lookup of the requested session in the request case")
-		notFound := func(ft core.Fact) bool {
-			cm, ok := core.NormCmp(ft)
-			return ok && cm.R == nil && cm.Op == token.NEQ && varOf(f, cm.L) == okVar
-		}
-		// the peer's list variable
-		var listVar *types.Var
-		for _, a := range assignments(f) {
-			if a.RHS == nil || !inClause(cc, a.Stmt.Pos()) {
-				continue
-			}
-			if ix, ok := ast.Unparen(a.RHS).(*ast.IndexExpr); ok && fieldNameOf(f, ix.X) == peerSessF {
-				listVar = varOf(f, a.LHS)
+		for _, fr := range sc.Frames {
+			for _, a := range fr.Assignments() {
+				as, isAs := a.Stmt.(*ast.AssignStmt)
+				if !isAs || len(as.Lhs) != 2 || len(as.Rhs) != 1 || !c17IndexOfField(fr.F, as.Rhs[0], sessionsF) {
+					continue
+				}
+				lf, okVar, lookupPt = fr, varOf(fr.F, as.Lhs[1]), a.Pt
 			}
 		}
-		c.Need(listVar != nil, "the peer's session list is loaded into a variable")
+		c.Need(lf != nil && okVar != nil, "comma-ok lookup of the requested session in the request handler")
+		c.Need(len(assignsToVar(lf.F, okVar)) == 1 && lf.In(okVar.Pos()), "the found-flag of the lookup is a variable of the handler defined by the lookup only")
+		notFound := func(g *core.FuncInfo) func(core.Fact) bool {
+			return func(ft core.Fact) bool {
+				e, truth, ok := c17BoolFact(g.Info(), ft)
+				return ok && !truth && varOf(g, e) == okVar
+			}
+		}
+		// a fact about the flag speaks about this handler run's lookup: the site comes after it
+		afterLookup := func(fr *c17Frame, pt core.Point) bool { return fr != lf || fr.reaches(lookupPt, pt) }
 		n := 0
-		// deletes from the session table inside the request case
-		for _, cs := range f.CallsTo("builtin.delete") {
-			if !inClause(cc, cs.Pos()) || fieldNameOf(f, cs.Call.Args[0]) != sessionsF {
-				continue
-			}
-			n++
-			ok, wit := f.GuardedBetween(core.Point{B: body, I: 0}, cs.Pt, notFound)
-			if body.Nodes != nil && len(body.Nodes) > 0 && (core.Point{B: body, I: 0}) == cs.Pt {
-				ok = false
-			}
-			// the guard variable must refer to the lookup made in this handler run: lookup precedes
-			ok2 := f.CanReach(lookupPt, cs.Pt)
-			c.Check(ok && ok2, "readerLoop|session evicted only when a new one is created", "T4 GuardedBy", cs.Pos(),
-				"delete(sessions, other) is reached only on the edge where the requested session was not found",
-				"a request that resumes an existing session can evict another live session of the peer (it is then restarted from its start: items are sent again): "+f.DescribePath(wit))
-		}
-		// shortening of the list
-		for _, a := range assignsToVar(f, listVar) {
-			if a.RHS == nil || !inClause(cc, a.Stmt.Pos()) {
-				continue
-			}
-			if _, isSlice := ast.Unparen(a.RHS).(*ast.SliceExpr); !isSlice {
-				continue
-			}
-			n++
-			ok, wit := f.GuardedBetween(core.Point{B: body, I: 0}, a.Pt, notFound)
-			c.Check(ok && f.CanReach(lookupPt, a.Pt), "readerLoop|session list shortened only when a new one is created", "T4 GuardedBy", a.Stmt.Pos(),
-				"the peer's list is resliced only on the not-found edge", "the peer's session list is shortened by a request that resumes an existing session: "+f.DescribePath(wit))
-		}
-		c.ExpectAtLeast("eviction sites in the request case", n, 2)
-		// every change of the list is stored back before the handler ends
-		var stores []core.Point
-		for _, a := range assignments(f) {
-			if ix, ok := ast.Unparen(a.LHS).(*ast.IndexExpr); ok && fieldNameOf(f, ix.X) == peerSessF && varOf(f, a.RHS) == listVar && inClause(cc, a.Stmt.Pos()) {
-				stores = append(stores, a.Pt)
+		// deletes from the session table inside the request handler
+		for _, fr := range sc.Frames {
+			for _, cs := range fr.Calls() {
+				if cs.Name != "builtin.delete" || len(cs.Call.Args) != 2 || fieldNameOf(fr.F, cs.Call.Args[0]) != sessionsF {
+					continue
+				}
+				n++
+				ok, why := sc.Guarded(fr, cs.Pt, notFound, false)
+				c.Check(ok && afterLookup(fr, cs.Pt), "readerLoop|session evicted only when a new one is created", "T4 GuardedBy", cs.Pos(),
+					"delete(sessions, other) is reached only on the edge where the requested session was not found",
+					"a request that resumes an existing session can evict another live session of the peer (it is then restarted from its start: items are sent again): "+why)
 			}
 		}
-		for _, a := range assignsToVar(f, listVar) {
-			if a.RHS == nil || !inClause(cc, a.Stmt.Pos()) {
-				continue
-			}
-			if ix, ok := ast.Unparen(a.RHS).(*ast.IndexExpr); ok && fieldNameOf(f, ix.X) == peerSessF {
-				continue // the load
-			}
-			path, found := core.PathQuery{F: f, From: a.Pt, FromAfter: true, Avoid: core.PointSet(stores...), TargetBlock: caseEnd(f, body), TargetExit: true}.Find()
-			c.Check(!found, "readerLoop|changed session list is stored back", "T7 Pairing", a.Stmt.Pos(), "every path from this change of the list to the end of the handler stores it into peerSessions", "the peer's list is changed but not stored (list and table drift apart): "+f.DescribePath(path))
+		// the peer's list variable(s): loaded from peerSessions
+		type listVar struct {
+			fr *c17Frame
+			v  *types.Var
 		}
-	})
-
-	c.Clause("C17.maps", func() {
-		f := c.Fn(seedT + ".readerLoop")
-		body, cc := selectCase(f, seedT+".notifyReceivedRequest")
-		c.Need(body != nil, "request case")
-		var tableStores []core.Point
-		for _, a := range assignments(f) {
-			if ix, ok := ast.Unparen(a.LHS).(*ast.IndexExpr); ok && fieldNameOf(f, ix.X) == sessionsF && inClause(cc, a.Stmt.Pos()) {
-				tableStores = append(tableStores, a.Pt)
-			}
-		}
-		n := 0
-		for _, a := range assignments(f) {
-			if a.RHS == nil || !inClause(cc, a.Stmt.Pos()) {
-				continue
-			}
-			ap := isCallTo(f, a.RHS, "builtin.append")
-			if ap == nil {
-				continue
-			}
-			// appending to the list loaded from peerSessions
-			v := varOf(f, ap.Args[0])
-			isList := false
-			if v != nil {
-				for _, d := range assignsToVar(f, v) {
-					if ix, ok := ast.Unparen(d.RHS).(*ast.IndexExpr); ok && d.RHS != nil && fieldNameOf(f, ix.X) == peerSessF {
-						isList = true
+		var lists []listVar
+		for _, fr := range sc.Frames {
+			for _, a := range fr.Assignments() {
+				if a.RHS != nil && c17IndexOfField(fr.F, a.RHS, peerSessF) {
+					if v := varOf(fr.F, a.LHS); v != nil {
+						lists = append(lists, listVar{fr, v})
 					}
 				}
 			}
-			if !isList {
-				continue
+		}
+		c.Need(len(lists) > 0, "the peer's session list is loaded into a variable")
+		for _, l := range lists {
+			fr := l.fr
+			var stores []core.Point
+			for _, a := range fr.Assignments() {
+				if c17IndexOfField(fr.F, a.LHS, peerSessF) && a.RHS != nil && varOf(fr.F, a.RHS) == l.v {
+					stores = append(stores, a.Pt)
+				}
 			}
-			n++
-			path, found := core.PathQuery{F: f, From: a.Pt, FromAfter: true, Avoid: core.PointSet(tableStores...), TargetBlock: caseEnd(f, body), TargetExit: true}.Find()
-			c.Check(!found, "readerLoop|listed session has a stored state", "T7 Pairing", a.Stmt.Pos(),
-				"every path from listing a new session id to the end of the handler stores the session under its key",
-				"a session id is listed for the peer without its state being stored (e.g. a request with zero chunks): the next request 'creates' it again, lists it twice and evicts a live session early; path "+f.DescribePath(path))
+			via := func(g *c17Frame) []core.Point {
+				if g == fr {
+					return stores
+				}
+				return nil
+			}
+			for _, a := range assignsToVar(fr.F, l.v) {
+				if a.RHS == nil || !fr.In(a.Stmt.Pos()) || c17IndexOfField(fr.F, a.RHS, peerSessF) {
+					continue
+				}
+				// shortening of the list
+				if _, isSlice := ast.Unparen(a.RHS).(*ast.SliceExpr); isSlice {
+					n++
+					ok, why := sc.Guarded(fr, a.Pt, notFound, false)
+					c.Check(ok && afterLookup(fr, a.Pt), "readerLoop|session list shortened only when a new one is created", "T4 GuardedBy", a.Stmt.Pos(),
+						"the peer's list is resliced only on the not-found edge", "the peer's session list is shortened by a request that resumes an existing session: "+why)
+				}
+				// every change of the list is stored back before the handler ends
+				ok, why := sc.FollowedBy(fr, a.Pt, via)
+				c.Check(ok, "readerLoop|changed session list is stored back", "T7 Pairing", a.Stmt.Pos(), "every path from this change of the list to the end of the handler stores it into peerSessions", "the peer's list is changed but not stored (list and table drift apart): "+why)
+			}
+		}
+		c.ExpectAtLeast("eviction sites in the request case", n, 2)
+	})
+
+	c.Clause("C17.maps", func() {
+		sc := c17RequestScope(c)
+		stored := func(fr *c17Frame) []core.Point { return sc.MustSites(fr, tableStores) }
+		n := 0
+		for _, fr := range sc.Frames {
+			f := fr.F
+			for _, a := range fr.Assignments() {
+				if a.RHS == nil {
+					continue
+				}
+				ap := isCallTo(f, a.RHS, "builtin.append")
+				if ap == nil || len(ap.Args) == 0 {
+					continue
+				}
+				// appending to the list loaded from peerSessions
+				v := varOf(f, ap.Args[0])
+				isList := c17IndexOfField(f, ap.Args[0], peerSessF)
+				if v != nil {
+					for _, d := range assignsToVar(f, v) {
+						if d.RHS != nil && c17IndexOfField(f, d.RHS, peerSessF) {
+							isList = true
+						}
+					}
+				}
+				if !isList {
+					continue
+				}
+				n++
+				ok, why := sc.FollowedBy(fr, a.Pt, stored)
+				c.Check(ok, "readerLoop|listed session has a stored state", "T7 Pairing", a.Stmt.Pos(),
+					"every path from listing a new session id to the end of the handler stores the session under its key",
+					"a session id is listed for the peer without its state being stored (e.g. a request with zero chunks): the next request 'creates' it again, lists it twice and evicts a live session early; path "+why)
+			}
 		}
 		c.ExpectAtLeast("session-id appends", n, 1)
 		// unregistration
+		f := c.Fn(seedT + ".readerLoop")
 		ub, ucc := selectCase(f, seedT+".notifyUnregisteredPeer")
 		c.Need(ub != nil, "unregister case")
 		// the peer received from the channel
@@ -206,95 +285,166 @@ func runC17(c *core.Ctx) {
 	})
 
 	c.Clause("C17.latch", func() {
-		f := c.Fn(seedT + ".readerLoop")
-		_, cc := selectCase(f, seedT+".notifyReceivedRequest")
-		c.Need(cc != nil, "request case")
-		sends := f.CallsMatching(func(cs *core.CallSite) bool {
-			return cs.Name == "utils/workers.Workers.Enqueue" && inClause(cc, cs.Pos())
-		})
-		c.ExpectAtLeast("response enqueue sites", len(sends), 1)
-		doneF := seedP + "sessionState.done"
-		notDone := func(ft core.Fact) bool {
-			cm, ok := core.NormCmp(ft)
-			return ok && cm.R == nil && cm.Op == token.NEQ && fieldNameOf(f, cm.L) == doneF
-		}
-		for _, s := range sends {
-			ok, wit := f.GuardedBy(s.Pt, notDone)
-			if ok && f.CanReach(s.Pt, s.Pt) {
-				ok, wit = f.GuardedBetween(s.Pt, s.Pt, notDone)
+		sc := c17RequestScope(c)
+		notDone := func(g *core.FuncInfo) func(core.Fact) bool {
+			return func(ft core.Fact) bool {
+				e, truth, ok := c17BoolFact(g.Info(), ft)
+				return ok && !truth && fieldNameOf(g, e) == doneF
 			}
-			c.Check(ok, "readerLoop|nothing is sent for a done session", "T4 GuardedBy", s.Pos(), "every response is queued on the !session.done edge, re-tested before each further chunk", "a response can be sent after the session was marked done: "+f.DescribePath(wit))
-			// state updated and written back before the response is queued (same iteration)
-			var wb, setDone, setNext []core.Point
-			var doneRHS ast.Expr
-			for _, a := range assignments(f) {
-				if !inClause(cc, a.Stmt.Pos()) {
-					continue
+		}
+		fieldSets := func(field string) func(*c17Frame) []core.Point {
+			return func(fr *c17Frame) []core.Point {
+				var out []core.Point
+				for _, a := range fr.Assignments() {
+					if fieldNameOf(fr.F, a.LHS) == field && (a.Tok == token.ASSIGN || a.Tok == token.DEFINE) {
+						out = append(out, a.Pt)
+					}
 				}
-				if ix, ok := ast.Unparen(a.LHS).(*ast.IndexExpr); ok && fieldNameOf(f, ix.X) == sessionsF {
-					wb = append(wb, a.Pt)
+				return out
+			}
+		}
+		setDone, setNext := fieldSets(doneF), fieldSets(nextF)
+		written := func(fr *c17Frame) []core.Point { return sc.MustSites(fr, tableStores) }
+		// a helper leaves the stored copy stale when it can return after an update of next/done without
+		// having written the state back; its call is then an update from the caller's point of view
+		stale := map[*c17Frame]int8{}
+		var updates func(fr *c17Frame, depth int) []core.Point
+		var leavesStale func(fr *c17Frame, depth int) bool
+		updates = func(fr *c17Frame, depth int) []core.Point {
+			out := append(setDone(fr), setNext(fr)...)
+			if depth <= 0 {
+				return out
+			}
+			for _, cs := range fr.Calls() {
+				if g := c17ModuleCallee(cs); g != nil && sc.FrameOf(g) != nil && sc.FrameOf(g) != fr && sc.FrameOf(g).End == nil && leavesStale(sc.FrameOf(g), depth-1) {
+					out = append(out, cs.Pt)
 				}
-				switch fieldNameOf(f, a.LHS) {
-				case doneF:
-					setDone = append(setDone, a.Pt)
-					doneRHS = a.RHS
-				case seedP + "sessionState.next":
-					if enclosingLoop(f, a.Stmt.Pos()) != nil && f.CanReach(a.Pt, s.Pt) {
-						if _, isFor := enclosingLoop(f, a.Stmt.Pos()).(*ast.ForStmt); isFor && a.Tok == token.ASSIGN {
-							setNext = append(setNext, a.Pt)
+			}
+			return out
+		}
+		leavesStale = func(fr *c17Frame, depth int) bool {
+			switch stale[fr] {
+			case 1:
+				return true
+			case 2, 3:
+				return false
+			}
+			stale[fr] = 3
+			res := false
+			for _, u := range updates(fr, depth) {
+				if ok, _ := fr.F.MustPassAfter(u, written(fr)); !ok {
+					res = true
+				}
+			}
+			stale[fr] = 2
+			if res {
+				stale[fr] = 1
+			}
+			return res
+		}
+		// the stored copy contains the updates whenever a response is queued: in every frame, every
+		// path from an update to a send passes the write-back
+		okStored, whyStored := true, ""
+		for _, fr := range sc.Frames {
+			wb := written(fr)
+			for _, u := range updates(fr, 3) {
+				for _, sp := range sc.MaySites(fr, sends) {
+					if !fr.reaches(u, sp) {
+						continue
+					}
+					if o, wit := fr.between(u, wb, sp); !o {
+						okStored, whyStored = false, "in "+short(fr.F.Name)+": "+fr.F.DescribePath(wit)
+					}
+				}
+			}
+		}
+		nSends := 0
+		for _, fr := range sc.Frames {
+			for _, sp := range sends(fr) {
+				nSends++
+				pos := posOf(sp)
+				ok, why := sc.Guarded(fr, sp, notDone, true)
+				c.Check(ok, "readerLoop|nothing is sent for a done session", "T4 GuardedBy", pos, "every response is queued on the !session.done edge, re-tested before each further chunk", "a response can be sent after the session was marked done: "+why)
+				// state updated and written back before the response is queued (same iteration)
+				ok1, w1 := sc.PrecededBy(fr, sp, written)
+				ok2, w2 := sc.PrecededBy(fr, sp, func(g *c17Frame) []core.Point { return sc.MustSites(g, setDone) })
+				ok3, w3 := sc.PrecededBy(fr, sp, func(g *c17Frame) []core.Point { return sc.MustSites(g, setNext) })
+				why = ""
+				switch {
+				case !ok1:
+					why = "no write-back before the send, " + w1
+				case !ok2:
+					why = "done not updated before the send, " + w2
+				case !ok3:
+					why = "next not updated before the send, " + w3
+				case !okStored:
+					why = "an update reaches the send without the write-back, " + whyStored
+				}
+				c.Check(ok1 && ok2 && ok3 && okStored, "readerLoop|progress is recorded before the chunk is queued", "T7 Pairing", pos, "next and done are updated, and only then the state is stored into sessions[key], before each Enqueue", "a chunk can be queued while the stored session state lacks the latest next/done (the state is a value copy): a resumed or finished session repeats items or sends a second 'done' response ("+why+")")
+			}
+		}
+		c.ExpectAtLeast("response enqueue sites", nSends, 1)
+		// resp.Done carries the same flag (either may be copied from the other, or both from one
+		// variable; the response may be built field by field or by a composite literal). Decided in the
+		// frame that fills the response, against the point where that frame sends (or calls the helper
+		// that sends)
+		const respDoneF = "gossip/basestream.Response.Done"
+		okD, nD := true, 0
+		posD := token.NoPos
+		for _, fr := range sc.Frames {
+			f := fr.F
+			lo, hi := fr.Range()
+			sets := map[string][]c17FieldSet{
+				respDoneF: c17FieldSets(f, respDoneF, lo, hi),
+				doneF:     c17FieldSets(f, doneF, lo, hi),
+			}
+			if len(sets[respDoneF]) == 0 {
+				continue
+			}
+			for _, sp := range sc.MaySites(fr, sends) {
+				same, some := false, false
+				for _, rd := range sets[respDoneF] {
+					if o, _ := precedesLocally(f, []core.Point{rd.Pt}, sp); !o {
+						continue
+					}
+					some = true
+					posD = rd.Pos
+					src := c17ValueSource(f, rd.RHS, rd.Pt, sets, 4)
+					if src == nil {
+						continue
+					}
+					for _, sd := range sets[doneF] {
+						if o, _ := precedesLocally(f, []core.Point{sd.Pt}, sp); o && c17ValueSource(f, sd.RHS, sd.Pt, sets, 4) == src {
+							same = true
 						}
 					}
 				}
-			}
-			ok1, _ := precedesLocally(f, wb, s.Pt)
-			ok2, _ := precedesLocally(f, setDone, s.Pt)
-			ok3, _ := precedesLocally(f, setNext, s.Pt)
-			// the stored copy must already contain the updates: every path from an update to the send passes the write-back
-			ok4 := true
-			for _, upd := range append(append([]core.Point{}, setDone...), setNext...) {
-				if f.CanReach(upd, s.Pt) {
-					if o, _ := f.MustPassBetween(upd, wb, s.Pt); !o {
-						ok4 = false
-					}
+				if some {
+					nD++
+					okD = okD && same
 				}
 			}
-			c.Check(ok1 && ok2 && ok3 && ok4 && len(wb) > 0, "readerLoop|progress is recorded before the chunk is queued", "T7 Pairing", s.Pos(), "next and done are updated, and only then the state is stored into sessions[key], before each Enqueue", "a chunk can be queued while the stored session state lacks the latest next/done (the state is a value copy): a resumed or finished session repeats items or sends a second 'done' response")
-			// resp.Done carries the same flag
-			// (either may be copied from the other, or both from one variable; the response may be built
-			// field by field or by a composite literal)
-			const respDoneF = "gossip/basestream.Response.Done"
-			sets := map[string][]c17FieldSet{
-				respDoneF: c17FieldSets(f, respDoneF, cc.Pos(), cc.End()),
-				doneF:     c17FieldSets(f, doneF, cc.Pos(), cc.End()),
-			}
-			okD := false
-			_ = doneRHS
-			for _, rd := range sets[respDoneF] {
-				if o, _ := precedesLocally(f, []core.Point{rd.Pt}, s.Pt); !o {
-					continue
-				}
-				src := c17ValueSource(f, rd.RHS, rd.Pt, sets, 4)
-				if src == nil {
-					continue
-				}
-				for _, sd := range sets[doneF] {
-					if o, _ := precedesLocally(f, []core.Point{sd.Pt}, s.Pt); o && c17ValueSource(f, sd.RHS, sd.Pt, sets, 4) == src {
-						okD = true
-					}
-				}
-			}
-			c.Check(okD, "readerLoop|response Done equals the session's done flag", "provenance", s.Pos(), "resp.Done and session.done are assigned from the same value", "the response's Done mark and the session's done latch can differ")
 		}
+		c.Check(okD && nD > 0, "readerLoop|response Done equals the session's done flag", "provenance", posD, "resp.Done and session.done are assigned from the same value before the response is queued", "the response's Done mark and the session's done latch can differ (or the mark is not set before the response is queued)")
 	})
 
 	c.Clause("C17.limits", func() {
-		f := c.Fn(seedT + ".readerLoop")
-		calls := f.CallsTo(seedP + "Callbacks.ForEachItem")
-		c.Need(len(calls) == 1 && len(calls[0].Call.Args) == 4, "one ForEachItem(start, type, onKey, onAppended) call")
-		call := calls[0]
+		sc := c17RequestScope(c)
+		var f *core.FuncInfo
+		var call *core.CallSite
+		nCalls := 0
+		for _, fr := range sc.Frames {
+			for _, cs := range fr.Calls() {
+				if cs.Name == seedP+"Callbacks.ForEachItem" {
+					nCalls++
+					f, call = fr.F, cs
+				}
+			}
+		}
+		c.Need(nCalls == 1 && len(call.Call.Args) == 4, "one ForEachItem(start, type, onKey, onAppended) call")
 		// start is session.next
-		c.Check(fieldNameOf(f, call.Call.Args[0]) == seedP+"sessionState.next", "iteration starts at session.next", "provenance", call.Pos(), "ForEachItem starts from the stored next locator", "the chunk does not start at the session's next locator")
-		onKey, onApp := litArg(f, call.Call, 2), litArg(f, call.Call, 3)
+		c.Check(fieldNameOf(f, c17Through(f)(call.Call.Args[0])) == seedP+"sessionState.next", "iteration starts at session.next", "provenance", call.Pos(), "ForEachItem starts from the stored next locator", "the chunk does not start at the session's next locator")
+		onKey, onApp := c17LitArg(f, call.Call, 2), c17LitArg(f, call.Call, 3)
 		c.Need(onKey != nil && onApp != nil, "item callbacks are function literals")
 		// onKey: returns false when key.Compare(session.stop) >= 0
 		key := onKey.Param(0)
@@ -396,9 +546,7 @@ func runC17(c *core.Ctx) {
 	})
 
 	c.Clause("C17.pending", func() {
-		f := c.Fn(seedT + ".readerLoop")
-		_, cc := selectCase(f, seedT+".notifyReceivedRequest")
-		c.Need(cc != nil, "request case")
+		sc := c17RequestScope(c)
 		isPendingAdd := func(g *core.FuncInfo, cs *core.CallSite) bool {
 			if cs.Name != "sync/atomic.AddInt64" || len(cs.Call.Args) != 2 {
 				return false
@@ -406,44 +554,58 @@ func runC17(c *core.Ctx) {
 			u, ok := ast.Unparen(cs.Call.Args[0]).(*ast.UnaryExpr)
 			return ok && u.Op == token.AND && fieldNameOf(g, u.X) == seedT+".pendingResponsesSize"
 		}
-		adds := f.CallsMatching(func(cs *core.CallSite) bool { return isPendingAdd(f, cs) })
-		c.ExpectAtLeast("pending-size additions", len(adds), 1)
-		waits := core.Points(f.CallsMatching(func(cs *core.CallSite) bool {
-			return cs.Name == seedT+".waitPendingResponsesBelowLimit" && inClause(cc, cs.Pos())
-		}))
-		for _, ad := range adds {
-			// a wait precedes each add in the same iteration
-			ok, wit := precedesLocally(f, waits, ad.Pt)
-			c.Check(ok, "readerLoop|wait below the limit before adding a response", "T2 Dominates", ad.Pos(), "waitPendingResponsesBelowLimit() precedes every addition, once per chunk", "a response's memory can be added without waiting for the pending size to drop below the limit: "+f.DescribePath(wit))
-			// the added amount
-			amt := core.StripConv(f.Info(), ad.Call.Args[1])
-			mv := varOf(f, amt)
-			c.Check(mv != nil, "readerLoop|added amount is a variable", "provenance", ad.Pos(), "the amount is kept in a variable", "the added amount cannot be tracked")
-			// the queued closure subtracts the same variable on every path
-			okSub := false
-			for _, e := range f.CallsTo("utils/workers.Workers.Enqueue") {
-				lit := litArg(f, e.Call, 0)
-				if lit == nil || !f.CanReach(ad.Pt, e.Pt) {
+		waits := func(fr *c17Frame) []core.Point {
+			var out []core.Point
+			for _, cs := range fr.Calls() {
+				if cs.Name == seedT+".waitPendingResponsesBelowLimit" && !cs.InGo && !cs.InDefer {
+					out = append(out, cs.Pt)
+				}
+			}
+			return out
+		}
+		waited := func(fr *c17Frame) []core.Point { return sc.MustSites(fr, waits) }
+		nAdds := 0
+		for _, fr := range sc.Frames {
+			f := fr.F
+			for _, ad := range fr.Calls() {
+				if !isPendingAdd(f, ad) {
 					continue
 				}
-				subs := lit.CallsMatching(func(cs *core.CallSite) bool {
-					if !isPendingAdd(lit, cs) {
-						return false
+				nAdds++
+				// a wait precedes each add in the same iteration
+				ok, why := sc.PrecededBy(fr, ad.Pt, waited)
+				c.Check(ok, "readerLoop|wait below the limit before adding a response", "T2 Dominates", ad.Pos(), "waitPendingResponsesBelowLimit() precedes every addition, once per chunk", "a response's memory can be added without waiting for the pending size to drop below the limit: "+why)
+				// the added amount
+				amt := core.StripConv(f.Info(), ad.Call.Args[1])
+				mv := varOf(f, amt)
+				c.Check(mv != nil, "readerLoop|added amount is a variable", "provenance", ad.Pos(), "the amount is kept in a variable", "the added amount cannot be tracked")
+				// the queued closure subtracts the same variable on every path
+				okSub := false
+				for _, e := range f.CallsTo(enqueueN) {
+					lit := c17LitArg(f, e.Call, 0)
+					if lit == nil || !f.CanReach(ad.Pt, e.Pt) {
+						continue
 					}
-					u, ok := ast.Unparen(cs.Call.Args[1]).(*ast.UnaryExpr)
-					return ok && u.Op == token.SUB && varOf(lit, core.StripConv(lit.Info(), u.X)) == mv && mv != nil
-				})
-				if len(subs) > 0 {
-					okSub = true
-					for _, rp := range lit.ReturnPoints() {
-						if o, _ := lit.MustPassBefore(core.Points(subs), rp); !o {
-							okSub = false
+					subs := lit.CallsMatching(func(cs *core.CallSite) bool {
+						if !isPendingAdd(lit, cs) {
+							return false
+						}
+						u, ok := ast.Unparen(cs.Call.Args[1]).(*ast.UnaryExpr)
+						return ok && u.Op == token.SUB && varOf(lit, core.StripConv(lit.Info(), u.X)) == mv && mv != nil
+					})
+					if len(subs) > 0 {
+						okSub = true
+						for _, rp := range lit.ReturnPoints() {
+							if o, _ := lit.MustPassBefore(core.Points(subs), rp); !o {
+								okSub = false
+							}
 						}
 					}
 				}
+				c.Check(okSub, "readerLoop|sender subtracts what was added", "T7 Pairing", ad.Pos(), "the queued closure subtracts the same amount on every path", "the pending size is not reduced by the same amount after sending (it grows without bound or goes negative)")
 			}
-			c.Check(okSub, "readerLoop|sender subtracts what was added", "T7 Pairing", ad.Pos(), "the queued closure subtracts the same amount on every path", "the pending size is not reduced by the same amount after sending (it grows without bound or goes negative)")
 		}
+		c.ExpectAtLeast("pending-size additions", nAdds, 1)
 		// the wait loop exits only below the limit (or when terminating)
 		w := c.Fn(seedT + ".waitPendingResponsesBelowLimit")
 		namer := func(e ast.Expr) string {
